@@ -401,5 +401,6 @@ PrunedBelowDenied ==
         /\ \E t \in Range(Collect(<<>>, req.ls, TRUE)) : ~Permitted(t) \/ AreasOf(t) # {}
 
 \* one line per terminal state: the table (request, callback result) -> response   (spec -> code conformance)
-Emit == Done => PrintT(<<"case", req, cb, out, PrunedBelowDenied>>)
+PropertyOn(o) == DeniedStaysDarkOn(o) /\ ClippedOutsideOn(o) /\ ContentInsideOn(o) /\ InfoGateOn(o)
+Emit == Done => PrintT(<<"case", req, cb, out, PrunedBelowDenied, PropertyOn(out)>>)
 =============================================================================
